@@ -24,8 +24,8 @@ ASSUMPTIONS = ["scope: every automat machine of the client (the thirteen mailbox
                "the cases that call dilate() - the Dilation machines); subchannels are not used by these programs",
                "after the application has observed closure it issues only get_*/close",
                "server `error` replies other than the consequences of a third participant are flagged"]
-FLOORS = {"quick": {"transitions": 60000, "closed_sides": 1000, "dilated_cases": 150, "prompt_race_cases": 50, "api_calls_from_inside_a_notification": 300},
-          "thorough": {"transitions": 3000000, "closed_sides": 50000, "dilated_cases": 8000, "prompt_race_cases": 2500, "api_calls_from_inside_a_notification": 15000}}
+FLOORS = {"quick": {"transitions": 60000, "closed_sides": 1000, "dilated_cases": 150, "prompt_race_cases": 50, "api_calls_from_inside_a_notification": 300, "closes_from_the_wordlist_callback": 10},
+          "thorough": {"transitions": 3000000, "closed_sides": 50000, "dilated_cases": 8000, "prompt_race_cases": 2500, "api_calls_from_inside_a_notification": 15000, "closes_from_the_wordlist_callback": 500}}
 DOCUMENTED_VERDICTS = ("happy", "LonelyError", "WrongPasswordError", "ServerError", "WelcomeError",
                        "ServerConnectionError")
 WORDS = ["purple", "sausages", "alpha", "beta", "zulu", "absurd"]
@@ -109,10 +109,23 @@ class Prog:
             self.app.on_event = self.react
         self.late_code = spec.get("late_code") and name == "B"
 
-    def react(self, kind):
-        if self.in_reaction or self.rng.random() < 0.5:
+    def react(self, kind, always=False):
+        if self.in_reaction or (not always and self.rng.random() < 0.5):
             return
         acts = self.actions()
+        if always:
+            if self.rng.random() < 0.5 and self.budget["close"] > 0 and not self.observed_closed():
+                # "the wordlist has arrived - but the user has lost interest meanwhile"
+                self.in_reaction = True
+                try:
+                    self.reentrant_calls += 1
+                    self.wordlist_closes = getattr(self, "wordlist_closes", 0) + 1
+                    self.do_close()
+                finally:
+                    self.in_reaction = False
+                return
+            pref = [a for a in acts if a[0][1] in ("words", "send")]
+            acts = pref or acts
         if acts:
             self.in_reaction = True
             try:
@@ -189,6 +202,13 @@ class Prog:
                 def f():
                     self.code_done = True
                     self.helper = self._api("input_code", lambda: app.call("input_code"))
+                    if self.helper is not None and self.reactive:
+                        # ... and one that acts as soon as the wordlist is there (this Deferred fires from inside the
+                        # library's processing of the server's `claimed`)
+                        d = self._api("when_wordlist_is_available", self.helper.when_wordlist_is_available)
+                        if d is not None:
+                            d.addCallback(lambda _: self.react("wordlist", always=True))
+                            d.addErrback(lambda f: None)
                 acts.append(((name, "code"), f))
         if self.helper is not None and not closing:
             h = self.helper
@@ -445,7 +465,7 @@ def run_case(spec):
     triples = ["%s.%s/%s" % k for k in MON.cov]
     return {"violations": viol,
             "nontrivial": trace_digest(sch) if ntrans >= 25 else None,
-            "counters": {"transitions": ntrans, "api_calls": sum(p.ncalls for p in drv.progs), "api_calls_from_inside_a_notification": sum(p.reentrant_calls for p in drv.progs),
+            "counters": {"transitions": ntrans, "api_calls": sum(p.ncalls for p in drv.progs), "api_calls_from_inside_a_notification": sum(p.reentrant_calls for p in drv.progs), "closes_from_the_wordlist_callback": sum(getattr(p, "wordlist_closes", 0) for p in drv.progs),
                          "closed_sides": sum(int(p.app.closed) for p in drv.progs),
                          "never_closed_sides": sum(int(not p.app.closed) for p in drv.progs),
                          "drops": drv.drops, "third_clients": int(len(drv.progs) > 2),
